@@ -835,7 +835,7 @@ Qed.
 (* a concrete region of the nudging stage: three segments of three connectors in one channel [0, 10], base distance 4,
    the middle one with a fixed end segment on the right; solved by a hand-made "solver" that returns a feasible
    placement.  It exercises nudge_region, the satisfied exit and the hypotheses of C10_model. *)
-Definition ex_seg (c : Z) (p : Q) : seg := mkseg c p false false false false false false 0 10 0 20.
+Definition ex_seg (c : Z) (p : Q) : seg := mkseg c p false false false false false false 0 10 0 20 false false [].
 Definition ex_rel : rel := mkrel true false false false.
 Definition ex_R : region := mkregion false 4 false true [ex_seg 1 5; ex_seg 2 5; ex_seg 3 5] [[]; [ex_rel]; [ex_rel; ex_rel]].
 Definition ex_solver (k : nat) (vs : list nvar) (cs : list con) (fl : list bool) : list Q * list bool :=
@@ -863,7 +863,7 @@ Proof. vm_compute. reflexivity. Qed.
 
 (* an unsatisfied exit: channel [0, 0.5] cannot hold three segments at any sepDist > 1e-4 with this (unhelpful) solver
    result; nothing is written back *)
-Definition ex_seg_n (c : Z) : seg := mkseg c 5 false false false false false false 5 (11 # 2) 0 20.
+Definition ex_seg_n (c : Z) : seg := mkseg c 5 false false false false false false 5 (11 # 2) 0 20 false false [].
 Definition ex_Rn : region := mkregion false 4 false true [ex_seg_n 1; ex_seg_n 2] [[]; [ex_rel]].
 Definition ex_solver_n (k : nat) (vs : list nvar) (cs : list con) (fl : list bool) : list Q * list bool :=
   ([4; 4; 6; 6; 4; 6], fl).
@@ -877,7 +877,7 @@ Proof. eexists. split; [vm_compute; reflexivity|]. vm_compute. repeat split; ref
        unsatisfied channel-left variable ends on the NEXT segment's variable, which is free.
    (2) COLA_ASSERT(vs[i - 1]->id == channelLeftID) (:2925): a segment with a finite maxSpaceLimit but no finite
        minSpaceLimit: the unsatisfied channel-right variable is preceded by the segment's own (free) variable. *)
-Definition ex_seg_half (c : Z) (mn mx : Q) : seg := mkseg c 5 false false false false false false mn mx 0 20.
+Definition ex_seg_half (c : Z) (mn mx : Q) : seg := mkseg c 5 false false false false false false mn mx 0 20 false false [].
 Definition ex_R5 : region :=
   mkregion false 4 false true [ex_seg_half 1 5 CHANNEL_MAX; ex_seg_half 2 (- CHANNEL_MAX) CHANNEL_MAX] [[]; [ex_rel]].
 Example ex_assert5 :
